@@ -30,11 +30,11 @@ hook), or (B) the final state being overwritten.  The specification names the de
 FixRestartRace = FALSE = the current code); the properties are checked on the repaired design (TRUE); the harness has
 pre-emption points inside the real postMortemCheck / Engine.restart at which the environment may kill the controller, those
 runs are matched against the current-code model and the properties evaluated on the logged real states.
-Plain reproduction with real threads: out/proposed_fixes/G02_kill_during_restart_hook_repro.py.
+Plain reproduction with real threads: findings/G02_kill_during_restart_hook_repro.py.
 A second one (key loop:iteration-instantiated-after-stop): finishedCheck of the condition component instantiates the next
 DoWhile iteration also after kill_all_components ran (stop_executing): its components are never launched nor finished, the
 stage never ends (deadlock on the model with FixLoopAfterStop = FALSE, KillReachesAll false, stuck real runs; plain
-reproduction out/proposed_fixes/G02_dowhile_iteration_after_kill_repro.py).
+reproduction findings/G02_dowhile_iteration_after_kill_repro.py).
 
 The check: (1) TLC on the model with the environment actions switched on (invariants + action properties + deadlock check
 + Termination under fairness + per-action coverage); (1b) TLC prints every terminal state of the restart x memoization
